@@ -34,7 +34,7 @@ pub enum Op {
 
 pub const BRANCHES: [&str; 10] = ["develop", "feature/x", "release/1", "fé/ü", "007", "hotfix/12/a", "release-2", "Feature/API-v2", "users/a+b@c", "1.2.3"];
 /// tag names: (name, valid semver, valid pep440)
-pub const TAGS: [&str; 48] = [
+pub const TAGS: [&str; 51] = [
     "1.0.0", "1.2.3", "v1.2.3", "2.0.0", "v2.0.0", "0.1.0", "10.20.30", "1.0.0-rc.1", "1.0.0-alpha.1", "v1.0.0-beta.2", "2.0.0-rc.1.post.3", "1.2.3+build.5",
     "3.0.0-alpha", "1.0", "1.0a1", "2!1.0", "1.0.post1", "1.0.0.dev3", "v3.1", "1.2.3.4", "3.0.0rc1", "01.02.03",
     "latest", "release-candidate", "foo", "v", "nightly-2024", "1.x", "v1.2.3.post1", "V1.2.3", "1.2.3-0123", "4.0.0-RC.1", "0.0.0", "1.10.0",
@@ -46,6 +46,8 @@ pub const TAGS: [&str; 48] = [
     "1.0-1", "1.0.1",
     // markers that embed a version tag's name
     "deploy-v1.2.3", "ci-passed-1.0.0", "v1.2.3-deployed",
+    // equal precedence, equal length
+    "1.2.3+build.6", "1.0A1", "1.0.0-RC.1",
 ];
 
 #[derive(Debug, Clone)]
@@ -396,4 +398,42 @@ impl Repo {
     pub fn path(&self) -> String {
         self.dir.to_string_lossy().into_owned()
     }
+}
+
+/// A repository whose HEAD commit (or its parent, with `commits_after`) carries the given tag
+/// names (those git accepts as ref names), optionally with a branch named like one of them.
+/// Returns the repository and the names actually created.
+pub fn repo_with_tags(names: &[String], decoy: Option<usize>, commits_after: u8) -> Result<(Repo, Vec<String>), String> {
+    let mut repo = Repo::new()?;
+    let mut made: Vec<String> = Vec::new();
+    for n in names {
+        if made.contains(n) || n.starts_with('-') || n.is_empty() {
+            continue;
+        }
+        let mut chk = Command::new("git");
+        git_env(&mut chk);
+        let ok = chk.current_dir(&repo.dir).args(["check-ref-format", &format!("refs/tags/{n}")]).status().map(|s| s.success()).unwrap_or(false);
+        if !ok {
+            continue;
+        }
+        let mut cmd = Command::new("git");
+        git_env(&mut cmd);
+        if cmd.current_dir(&repo.dir).args(["tag", "--", n]).status().map(|s| s.success()).unwrap_or(false) {
+            made.push(n.clone());
+            repo.log.push(format!("git tag {n}"));
+        }
+    }
+    if let Some(d) = decoy
+        && !made.is_empty()
+    {
+        let n = made[d % made.len()].clone();
+        let mut cmd = Command::new("git");
+        git_env(&mut cmd);
+        let _ = cmd.current_dir(&repo.dir).args(["branch", "--", &n]).status();
+        repo.log.push(format!("git branch {n}"));
+    }
+    for _ in 0..commits_after {
+        repo.apply(&Op::Commit { time_skew: 0 })?;
+    }
+    Ok((repo, made))
 }
